@@ -128,16 +128,22 @@ def h_eigen_shape(E, detail):
     return outs
 
 
-def h_entry(E, shape, samples, credit):
+def h_entry(E, shape, samples, credit, tolkind='abs'):
     from mitxgraders.comparers import MatrixEntryComparer
     cmp_ = MatrixEntryComparer(entry_partial_credit=credit)
-    tol = E.real('tol', 0, 1)
+    tol = E.real('tol', 0, 1) if tolkind == 'abs' else tolkind
     exps = [_arr(E, 'e%d_' % s, shape) for s in range(samples)]
     stus = [_arr(E, 's%d_' % s, shape) for s in range(samples)]
     r = cmp_([[e] for e in exps], stus, utils_for(tol, matrix=True))
+    p = None if tolkind == 'abs' else Fraction(float(tolkind[:-1]) * 0.01)
+
+    def close(e, s):
+        d = e - s
+        bound = tol if p is None else abs(e) * p
+        return sand(near_le(d, bound), near_le(-d, bound))
     match = {}
     for idx in np.ndindex(*shape):
-        match[idx] = sand(*[sand(near_le(exps[s][idx] - stus[s][idx], tol), near_le(stus[s][idx] - exps[s][idx], tol)) for s in range(samples)])
+        match[idx] = sand(*[close(exps[s][idx], stus[s][idx]) for s in range(samples)])
     n = len(match)
     cnt = sum(sif(m, 1, 0) for m in match.values())
     if r is True:
@@ -263,6 +269,9 @@ def harnesses(tier):
         for credit in (0, 0.5, 'proportional'):
             add(h_entry, 'entry', dict(shape='x'.join(map(str, shape)), samples=samples, credit=credit), 'symbolic entries and tolerance')
             hs[-1].params = (shape, samples, credit)
+    for credit in (0.5, 'proportional'):
+        add(h_entry, 'entry', dict(shape='2', samples=1, credit=credit, tol='5%'), 'symbolic entries, percentage tolerance (entry by entry)')
+        hs[-1].params = ((2,), 1, credit, '5%')
     add(h_equality_transform, 'equality_transform', {}, 'any reals')
     for raised in (True, False):
         for detail in ('type', 'shape', None):
